@@ -53,6 +53,10 @@ impl<'a, 'b, 'c> AdtDeserializer<'a, 'b, 'c> {
         for (idx, serialized_evolution_step) in serialized_evolution_steps.iter().enumerate() {
             match serialized_evolution_step {
                 SerializedEvolutionStep::FieldAddedToNewChunk { size } => {
+                    #[cfg(feature = "verif-hooks")]
+                    if idx as u8 > metadata.version {
+                        crate::verif::emit(crate::verif::Event::Probe("adt_unknown_chunk_skipped"));
+                    }
                     let start = context.pos();
                     context.skip(*size as usize)?;
                     inputs.push(InputRegion::new(start, *size as usize));
@@ -89,6 +93,8 @@ impl<'a, 'b, 'c> AdtDeserializer<'a, 'b, 'c> {
         field_default: Option<T>,
     ) -> Result<T> {
         if self.removed_fields.contains(field_name) {
+            #[cfg(feature = "verif-hooks")]
+            crate::verif::emit(crate::verif::Event::Probe("adt_required_field_removed"));
             Err(Error::FieldRemovedInSerializedVersion(
                 field_name.to_string(),
             ))
@@ -101,6 +107,8 @@ impl<'a, 'b, 'c> AdtDeserializer<'a, 'b, 'c> {
             let field_position = self.record_field_index(chunk);
             if self.stored_version < chunk {
                 // Field was not serialized
+                #[cfg(feature = "verif-hooks")]
+                crate::verif::emit(crate::verif::Event::Probe("adt_field_default"));
                 match field_default {
                     Some(value) => Ok(value),
                     None => Err(Error::FieldWithoutDefaultValueIsMissing(
@@ -116,6 +124,8 @@ impl<'a, 'b, 'c> AdtDeserializer<'a, 'b, 'c> {
                 }
                 let result = if self.made_optional_at.contains_key(&field_position) {
                     // The field was made optional in a newer version, so we have to read Option<T>
+                    #[cfg(feature = "verif-hooks")]
+                    crate::verif::emit(crate::verif::Event::Probe("adt_unwrap_made_optional"));
 
                     let is_defined = bool::deserialize(self.context)?;
                     if is_defined {
@@ -142,6 +152,8 @@ impl<'a, 'b, 'c> AdtDeserializer<'a, 'b, 'c> {
         field_default: Option<Option<T>>,
     ) -> Result<Option<T>> {
         if self.removed_fields.contains(field_name) {
+            #[cfg(feature = "verif-hooks")]
+            crate::verif::emit(crate::verif::Event::Probe("adt_optional_field_removed"));
             Ok(None)
         } else {
             let chunk = *self
@@ -154,6 +166,8 @@ impl<'a, 'b, 'c> AdtDeserializer<'a, 'b, 'c> {
             self.record_field_index(chunk);
             if self.stored_version < chunk {
                 // This field was not serialized
+                #[cfg(feature = "verif-hooks")]
+                crate::verif::emit(crate::verif::Event::Probe("adt_optional_field_default"));
                 match field_default {
                     Some(default_value) => Ok(default_value),
                     None => Err(Error::DeserializationFailure(format!(
@@ -168,6 +182,8 @@ impl<'a, 'b, 'c> AdtDeserializer<'a, 'b, 'c> {
                     self.context.push_region(self.inputs[chunk as usize]);
                 }
                 let result = if self.stored_version < opt_since {
+                    #[cfg(feature = "verif-hooks")]
+                    crate::verif::emit(crate::verif::Event::Probe("adt_wrap_made_optional"));
                     Ok(Some(T::deserialize(self.context)?))
                 } else {
                     Option::<T>::deserialize(self.context)
